@@ -80,6 +80,13 @@ HX int h_prog(int id, int n, int n2, int n3, const double* x, const int* idx, in
     case 72: { arr_cmplx r = rfft(mk_real(x, n)); put_cmplx(r, y); return r.size(); }
     case 73: { arr_cmplx r = ifft(mk_cmplx(x, n)); put_cmplx(r, y); return r.size(); }
     case 74: { arr_real r = irfft(mk_cmplx(x, n)); put_real(r, y); return r.size(); }
+    // ---- number-theory helpers at the top of the 32-bit range (termination within sqrt(n) trial divisions): the argument is table entry n
+    case 77: case 78: case 79: {
+        static const unsigned tab[] = {4294967291u, 4294967279u, 4293001441u, 4294967295u, 2147483647u, 4294836225u, 4294049777u, 65521u * 65537u};
+        const unsigned v = tab[n % 8];
+        if (id == 77) return isprime(v) ? 1 : 0;
+        if (id == 78) { arr_int f = factor(v); return f.size(); }
+        return (int)(nextprime(v > 4294967291u ? 4294967279u : v) & 0x7fffffff); }
     default: return -3;
     }
     H_END
